@@ -39,17 +39,43 @@ def parseId (w : String) : Option Nat :=
   else if cs.length > 1 && cs.head? == some '0' then none
   else w.toNat?
 
-def parseFault : String → Option Fault
-  | "ok" => some .ok | "fetcherr" => some .fetchErr | "fetchsize" => some .fetchSize
-  | "shortread" => some .shortRead | "corrupt" => some .corrupt | "desterr" => some .destErr
-  | "destsize" => some .destSize | _ => none
+def parseKind : String → Option ErrKind
+  | "generic" => some .generic | "notexist" => some .notExist | "enoent" => some .pathNotExist
+  | "canceled" => some .canceled | "deadline" => some .deadline | "eof" => some .eof
+  | "ueof" => some .unexpectedEOF | "corruptblob" => some .corruptBlob | "notfound" => some .notFound
+  | _ => none
+
+/-- `base` or `base:kind` -/
+def splitKind (w : String) : Option (String × ErrKind) :=
+  match w.splitOn ":" with
+  | [b] => some (b, .generic)
+  | [b, k] => (parseKind k).map (fun k => (b, k))
+  | _ => none
+
+def parseFault (w : String) : Option Fault :=
+  match w with
+  | "ok" => some .ok | "fetchsize" => some .fetchSize | "corrupt" => some .corrupt
+  | "destsize" => some .destSize | "shortread:eof0" => some .readEmpty
+  | _ =>
+    match splitKind w with
+    | some ("fetcherr", k) => some (.fetchErr k)
+    | some ("shortread", k) => some (.shortRead k)
+    | some ("desterr", k) => some (.destErr k)
+    | _ => none
 
 /-- `some true` = fine, `some false` = the queue write fails, `none` = the source store refuses -/
-def parseUp : String → Option (Option Bool)
-  | "ok" => some (some true) | "qseterr" => some (some false) | "srcerr" => some none | _ => none
+def parseUp (w : String) : Option (Option Bool) :=
+  if w == "ok" then some (some true) else
+  match splitKind w with
+  | some ("qseterr", _) => some (some false)
+  | some ("srcerr", _) => some none
+  | _ => none
 
-def parseDq : String → Option Bool
-  | "ok" => some true | "qdelerr" => some false | _ => none
+def parseDq (w : String) : Option Bool :=
+  if w == "ok" then some true else
+  match splitKind w with
+  | some ("qdelerr", _) => some false
+  | _ => none
 
 def parsePos : String → Option Bool
   | "pre" => some false | "post" => some true | _ => none
